@@ -72,7 +72,7 @@ Definition direct_of (f : frame) : list wire :=
 
 Definition frame_sid (f : frame) : list N :=
   match f with
-  | FData s _ _ _ | FHeaders s _ _ _ _ | FCont s _ | FPriority s _ | FRst s _ | FPush s _ _ _
+  | FData s _ _ _ | FHeaders s _ _ _ _ _ | FCont s _ | FPriority s _ | FRst s _ | FPush s _ _ _
   | FWinUpd s _ => [s]
   | _ => []
   end.
@@ -83,7 +83,7 @@ Definition wire_sid (w : wire) : list N :=
   end.
 (* streams named anywhere in the script or the observation *)
 Definition mentioned (ls : list label) (o : obs) : list N :=
-  flat_map (fun l => frame_sid (l_frame l)) ls ++ flat_map (fun e => wire_sid (snd e)) (concat o).
+  dedup (flat_map (fun l => frame_sid (l_frame l)) ls ++ flat_map (fun e => wire_sid (snd e)) (concat o)).
 
 (* frames the relay accepted for delivery to x (frame granularity = the relay's
    own splitting), from the dispatch layer alone *)
@@ -135,7 +135,7 @@ Fixpoint in_atoms_go (raw : bool) (pd : list atom) (s : N) (fs : list frame) : l
   | f :: t =>
       match f with
       | FData k es d _ => (if N.eqb k s then map AByte d ++ ends es else []) ++ in_atoms_go raw pd s t
-      | FHeaders k es eh pr fid =>
+      | FHeaders k es eh pr fid _ =>
           let a := if N.eqb k s then AHdr fid (norm_pr raw pr) :: ends es else [] in
           if eh then a ++ in_atoms_go raw pd s t else in_atoms_go raw a s t
       | FPush k eh pm fid =>
@@ -313,6 +313,50 @@ Definition c08_prio_ok (ls : list label) (o : obs) : bool := b_faithful true ls 
 (* header blocks reach each endpoint in the order they were HPACK-encoded *)
 Definition block_seqs (x : side) (evs : list event) : list nat :=
   flat_map (fun w => match w with WBlock _ _ _ _ q _ => [q] | _ => [] end) (to_side x evs).
+
+(* RFC 7540 validity of a script, as far as the relay is concerned: a header
+   block opened by HEADERS or PUSH_PROMISE without END_HEADERS is continued by
+   CONTINUATION frames on the same stream and nothing else from that endpoint;
+   stream frames name a stream; increments are positive; SETTINGS values are
+   in range (MAX_FRAME_SIZE 2^14..2^24-1, INITIAL_WINDOW_SIZE <= 2^31-1). *)
+Definition setting_ok (p : N * N) : bool :=
+  (negb (N.eqb (fst p) 4) || N.leb (snd p) 2147483647)
+  && (negb (N.eqb (fst p) 5) || (N.leb 16384 (snd p) && N.leb (snd p) 16777215)).
+Definition rfc_frame_ok (open : option N) (f : frame) : bool :=
+  match open with
+  | Some s => match f with FCont k _ => N.eqb k s | _ => false end
+  | None =>
+      match f with
+      | FCont _ _ => false
+      | FData s _ _ _ | FHeaders s _ _ _ _ _ | FPriority s _ | FRst s _ | FPush s _ _ _ => negb (N.eqb s 0)
+      | FWinUpd _ inc => negb (N.eqb inc 0)
+      | FSettings kv => forallb setting_ok kv
+      | _ => true
+      end
+  end.
+Definition rfc_open (open : option N) (f : frame) : option N :=
+  match f with
+  | FHeaders s _ eh _ _ _ | FPush s eh _ _ => if eh then None else Some s
+  | FCont s eh => if eh then None else open
+  | _ => open
+  end.
+Fixpoint rfc_valid_go (oc os : option N) (ls : list label) : bool :=
+  match ls with
+  | [] => true
+  | l :: t =>
+      match l_from l with
+      | Cl => rfc_frame_ok oc (l_frame l) && rfc_valid_go (rfc_open oc (l_frame l)) os t
+      | Sv => rfc_frame_ok os (l_frame l) && rfc_valid_go oc (rfc_open os (l_frame l)) t
+      end
+  end.
+Definition rfc_valid (ls : list label) : bool := rfc_valid_go None None ls.
+(* known finding C08-K2: the relay cannot take a continued PUSH_PROMISE *)
+Definition no_open_push (ls : list label) : bool :=
+  forallb (fun l => match l_frame l with FPush _ eh _ _ => eh | _ => true end) ls.
+
+(* known finding C08-K3: the relay's Framer rejects HEADERS whose fragment is empty *)
+Definition no_empty_hfrag (ls : list label) : bool :=
+  forallb (fun l => match l_frame l with FHeaders _ _ _ _ _ e0 => negb e0 | _ => true end) ls.
 
 (* model vs implementation, one step *)
 Definition step_agrees (model real : list event) : bool :=
